@@ -103,3 +103,19 @@ def _dt_fromisoformat(it, cls, s):
         raise Unsupported("datetime.fromisoformat(non-str)")
     it.ex.note("assumed", "datetime.fromisoformat(s).timestamp() is an uninterpreted function of s (no parse errors modelled)")
     return it.instantiate(DateTimeModel, [SFloat(uf("iso_timestamp", _z3.StringSort(), _z3.RealSort())(s.t))], {})
+
+
+# base64.b64decode(s) (validate=False, no altchars): same uninterpreted decoder as binascii.a2b_base64 in libx_addons
+# (axiom a2b_base64(b64encode(x)) == x; invalid input raises binascii.Error).
+import base64 as _b64
+
+from .lib import function as _function
+
+
+@_function(_b64.b64decode)
+def f_b64decode(it, s, altchars=None, validate=False):
+    from . import libx_addons as _A
+
+    if altchars is not None or (validate is not False and it.truthy(validate)):
+        raise Unsupported("b64decode(altchars/validate)")
+    return _A.f_a2b_base64(it, s)
